@@ -62,6 +62,7 @@ def run(ctx):
                        "Necessary clauses of convergence, not convergence.")
     merge_tables(ctx)
     add_conflict(ctx)
+    attr_states_complete(ctx)
 
 
 # ---------------------------------------------------------------------------
@@ -387,3 +388,90 @@ def add_conflict(ctx):
         ctx.check(ok, R, fc["fn"], "live-live:ids-differ", "(Live, Live) ⇒ creation ids differ",
                   "is_add_conflict's (Live, Live) row is not `at_incoming != at_db`: independently created entries would be merged attribute by attribute (or identical ones split)",
                   file=fc["file"], line=(a or {}).get("body", {}).get("line"))
+
+
+# ---------------------------------------------------------------------------
+# every attribute change id is transmitted, also for attributes that have no live value: the "removed at cid X" marker is
+# what lets a replica that joined later reject an older concurrent write. The encoders may skip an attribute because it is not
+# replicated or (incremental) because its cid is outside the requested range — never because of what the entry holds.
+# (added after seeded change C08: the refresh encoder skipped attributes without a live value)
+
+def attr_states_complete(ctx):
+    R = "K5-attr-change-state-complete"
+    F = ctx.facts
+    names = F.find_fns(LIB, r"^kanidmd_lib::repl::proto::Repl(Incremental)?EntryV1::new$")
+    ctx.floor(R, "replication entry encoders", len(names), 2)
+    for name in sorted(names):
+        f = ctx.fn(LIB, name)
+        # the local holding the entry's live attribute map
+        live = set()
+        for n in walk(f["body"]):
+            if n.get("s") == "let" and "init" in n and n["pat"].get("p") == "bind":
+                if any(c.get("e") == "mcall" and c.get("name") == "get_ava" for c in walk(n["init"], into_closures=False)):
+                    live.add(n["pat"]["local"])
+        fms = [c for c in walk(f["body"]) if c.get("e") == "mcall" and c.get("name") in ("filter_map", "filter", "map")
+               and any(x.get("e") == "path" and x["res"].get("name") == "changes" or (x.get("e") == "mcall" and x.get("name") == "iter") for x in walk(c["recv"]))
+               and "ReplAttrStateV1" in str(c.get("ty", "")) + str(f["body"])[:0]]
+        enc = [c for c in walk(f["body"]) if c.get("e") == "mcall" and c.get("name") == "filter_map"
+               and any(unwrap(a).get("e") == "closure" and constructs(unwrap(a)["body"], "repl::proto::ReplAttrStateV1") for a in c["args"])]
+        if not ctx.check(len(enc) >= 1 and bool(live), R, name, "encoder-closure-found", "changes.iter().filter_map(|(attr, cid)| ..ReplAttrStateV1..)",
+                         "the per-attribute encoder closure (or the entry's live attribute map) was not found (shape not understood)", file=f["file"], line=f["line"]):
+            continue
+        for c in enc:
+            clo = [unwrap(a) for a in c["args"] if unwrap(a).get("e") == "closure"][0]
+            # (1) adapters between `changes` and the encoder may only test is_replicated
+            r = unwrap(c["recv"])
+            while r.get("e") == "mcall":
+                if r.get("name") in ("filter", "filter_map", "skip", "take", "skip_while", "take_while", "step_by"):
+                    toks = tokens({"a": r.get("args", [])})
+                    okf = has_token(toks, "call", "is_replicated") and not any(
+                        x.get("e") == "path" and x["res"].get("local") in live for x in walk({"a": r.get("args", [])}))
+                    ctx.check(okf, R, name, f"adapter:{r['name']}", "only `is_replicated` filters the change list",
+                              f"{short(name)} drops attribute change ids with `.{r['name']}(..)` on a criterion other than schema.is_replicated — a change the "
+                              "supplier's RUV already covers is then never transmitted", file=f["file"], line=r.get("line"))
+                r = unwrap(r["recv"])
+            # (2) inside the closure: the decision to emit nothing for an attribute never looks at the entry's values
+            bad = []
+
+            def scan(node, conds):
+                if isinstance(node, list):
+                    for x in node:
+                        scan(x, conds)
+                    return
+                if not isinstance(node, dict):
+                    return
+                k = node.get("e")
+                if k == "closure" and node is not clo:
+                    return                      # nested closures compute the attribute VALUE (and_then(|vs| ..)), not the item
+                if k == "match" and "TryDesugar" in node.get("src", ""):
+                    inner = pc.try_inner(node)
+                    if any(x.get("e") == "path" and x["res"].get("local") in live for x in walk(inner)):
+                        bad.append(("?", node.get("line")))
+                    scan(inner, conds)
+                    return
+                if k == "if":
+                    scan(node["cond"], conds)
+                    scan(node["then"], conds + [node["cond"]])
+                    if "else" in node:
+                        scan(node["else"], conds + [node["cond"]])
+                    return
+                if k == "match":
+                    scan(node["scrut"], conds)
+                    for a in node["arms"]:
+                        scan(a["body"], conds + [node["scrut"]])
+                    return
+                if k == "path" and node["res"].get("def", "").endswith("core::option::Option::None"):
+                    for cnd in conds:
+                        if any(x.get("e") == "path" and x["res"].get("local") in live for x in walk(cnd)):
+                            bad.append(("None", node.get("line")))
+                    return
+                for key, v in node.items():
+                    if key in ("line", "exp"):
+                        continue
+                    if isinstance(v, (dict, list)):
+                        scan(v, conds)
+            scan(clo["body"], [])
+            ctx.check(not bad, R, name, "skip-independent-of-entry-values", "attributes are skipped only for schema / range reasons",
+                      f"{short(name)} emits nothing for an attribute depending on the entry's live values ({bad[:3]}): an attribute that was purged (or whose "
+                      "value set is empty) is sent without its change id, so a replica built from this message has no 'removed at cid' marker and accepts an "
+                      "older concurrent write that every other replica rejects — the replicas diverge permanently", file=f["file"], line=bad[0][1] if bad else None)
